@@ -691,6 +691,9 @@ def reuse_histories(rng, tier):
                 be = [(v, j) for v in range(1, n + 1) for j in range(1, r + 1) if rng.random() < .6 or j == (v % r) + 1]
                 slots["b"] = {"value": common.gvalue("bipartite", (n, r), be), "form": rng.choice(["cnfgen", "nx"]),
                               "salt": rng.randint(0, 10 ** 6)}
+                # a BipartiteGraph object can only grow and the sparse mappings made from it keep a reference to it
+                # (observation O1, notes/C19.md): handed over again as it is (growth between groups: C11 graph_reuse)
+                slots["b"]["frozen"] = slots["b"]["form"] == "cnfgen"
             dag = ("g",) if rng.random() < .85 else ()
         out.append(common.gen_reuse_history(rng, slots, rng.randint(3, 5), pick, dag=dag))
     return out
